@@ -19,4 +19,16 @@ CHECKS = {
         floors={"reordered=true": 0.15, "topo=proxy": 0.1, "topo=demux": 0.1, "ser=true": 0.25},
         assumptions=COMMON_ASSUMPTIONS,
     ),
+    "C02": dict(
+        level="exploration",
+        rule=("rapid-generated fault-free conversations: 1..32 concurrent RPCs (client/server/bidi streams plus unary) on 1..3 connections over direct|demux|proxy topologies, "
+              "by-ref or serialising transport; per stream 0..200 messages per direction with payload classes as C01; caller and handler programs are projections of a joint schedule "
+              "(templates: send-all/ping-pong/random/late-close x echo/burst/reply-after-EOF/random, early handler return, optional separate sender/receiver goroutines, optional Header()/Trailer()); "
+              "envelope delivery optionally released one at a time by a drawn tape. Oracle (history invariant): handler-received == caller-sent up to where the handler stopped reading, io.EOF exactly after half-close, "
+              "caller-received == handler-sent complete and in order, terminal receive is io.EOF iff the handler returned nil, repeated receives after the end never yield data. "
+              "Non-trivial = envelopes of >=2 calls interleaved on one connection, or >=11 messages one way, or separate sender/receiver goroutines; distinct = canonical case JSON hash."),
+        jobs=[dict(test="TestC02", quick=1600, thorough=40000)],
+        floors={"interleaved=true": 0.2, "concurrent=true": 0.1, "msgs>=11": 0.05, "kind=client": 0.1, "kind=server": 0.1, "kind=bidi": 0.2},
+        assumptions=COMMON_ASSUMPTIONS,
+    ),
 }
